@@ -416,6 +416,133 @@ func emptyGroupGivenToWith(kind int) (evals int, viols []vcommon.Violation) {
 	return
 }
 
+// reLV is a LogValuer that uses the library while it is being resolved (a cache that logs its
+// misses, a lazily built description that derives a logger): at most once, so that a handler
+// resolving a value twice is not mistaken for a difference.
+type reLV struct {
+	f    func()
+	done *bool
+}
+
+func (r reLV) LogValue() slog.Value {
+	if r.f != nil && !*r.done {
+		*r.done = true
+		r.f()
+	}
+	return slog.StringValue("resolved")
+}
+
+// reentrant: "built and used in any order" includes a use DURING another use. While a group
+// attribute of logger A is rendered (at a log call, or by With), one of its members logs through
+// another logger B of the same tree and derives a child C from B. What B, C, A and A's child write
+// - then and afterwards - must be what the same loggers write when that member does not call
+// back (the same operations, one after the other). Lines are compared as multisets.
+func reentrant(kind int) (evals int, viols []vcommon.Violation, hung bool) {
+	ctxs := []struct {
+		name string
+		mk   func(*logger.Logger) *logger.Logger
+	}{
+		{"root", func(l *logger.Logger) *logger.Logger { return l }},
+		{"With(a=1)", func(l *logger.Logger) *logger.Logger { return l.With("a", 1) }},
+		{"WithGroup(g)", func(l *logger.Logger) *logger.Logger { return l.WithGroup("g") }},
+		{"With(a=1).WithGroup(g)", func(l *logger.Logger) *logger.Logger { return l.With("a", 1).WithGroup("g") }},
+	}
+	others := []struct {
+		name string
+		mk   func(root, a *logger.Logger) *logger.Logger
+	}{
+		{"the root", func(root, a *logger.Logger) *logger.Logger { return root }},
+		{"a sibling root.With(b=1)", func(root, a *logger.Logger) *logger.Logger { return root.With("b", 1) }},
+		{"a sibling root.WithGroup(h)", func(root, a *logger.Logger) *logger.Logger { return root.WithGroup("h") }},
+		{"the logger itself", func(root, a *logger.Logger) *logger.Logger { return a }},
+		{"a child of the logger", func(root, a *logger.Logger) *logger.Logger { return a.With("c", 1) }},
+	}
+	run := func(cx, ot, mode int, callBack bool) []string {
+		w := &sink{}
+		root := newRoot(kind, w)
+		a := ctxs[cx].mk(root)
+		b := others[ot].mk(root, a)
+		var c *logger.Logger
+		inner := func() {
+			b.Info("inner", "k", 2)
+			c = b.With(slog.Group("cg", "z", 3))
+		}
+		done := false
+		lv := reLV{done: &done}
+		if callBack {
+			lv.f = inner
+		} else {
+			inner()
+		}
+		attr := slog.Group("ga", "k1", lv, "x", 1)
+		switch mode {
+		case 0:
+			a.Info("outer", attr, "y", 2)
+		case 1:
+			d := a.With(attr)
+			d.Info("outer-through-child", "y", 2)
+		default:
+			d := a.With("w", lv)
+			d.Info("outer-through-child-2", attr)
+		}
+		if c != nil {
+			c.Info("later through the child derived meanwhile")
+		}
+		b.Info("afterwards", "q", 1)
+		a.Info("afterwards-outer", slog.Group("ga", "k2", "v"))
+		lines := strings.Split(strings.Join(w.chunks, ""), "\n")
+		sort.Strings(lines)
+		return lines
+	}
+	type res struct {
+		evals int
+		viols []vcommon.Violation
+	}
+	ch := make(chan res, 1)
+	go func() {
+		var r res
+		for cx := range ctxs {
+			for ot := range others {
+				for mode := 0; mode < 3; mode++ {
+					r.evals++
+					got, want := run(cx, ot, mode, true), run(cx, ot, mode, false)
+					if strings.Join(got, "\n") != strings.Join(want, "\n") {
+						diff := ""
+						for i := range got {
+							if i >= len(want) || got[i] != want[i] {
+								w := "<nothing>"
+								if i < len(want) {
+									w = want[i]
+								}
+								diff = fmt.Sprintf("   %q\ninstead of\n   %q", clipS(got[i]), clipS(w))
+								break
+							}
+						}
+						if diff == "" {
+							diff = fmt.Sprintf("   %d lines instead of %d", len(got), len(want))
+						}
+						modes := []string{"a log call", "With", "With (plain attribute) followed by a log call"}
+						r.viols = append(r.viols, vcommon.Violation{Scenario: "R-" + handlerNames[kind] + "-use-during-use",
+							Fingerprint: fmt.Sprintf("reentrant|%s|%s|%s|%d", handlerNames[kind], ctxs[cx].name, others[ot].name, mode),
+							Message:     fmt.Sprintf("C03 (%s): while a group attribute of logger %s is rendered by %s, one of its members (a LogValuer) logs through %s and derives a child from it; the lines written differ from those of the same operations done one after the other:\n%s", handlerNames[kind], ctxs[cx].name, modes[mode], others[ot].name, diff),
+							Witness:     map[string]any{"handler": handlerNames[kind], "logger": ctxs[cx].name, "other": others[ot].name, "mode": mode}})
+						ch <- r
+						return
+					}
+				}
+			}
+		}
+		ch <- r
+	}()
+	select {
+	case r := <-ch:
+		return r.evals, r.viols, false
+	case <-time.After(60 * time.Second):
+		// an implementation that renders under a lock cannot be called back into; the statement does not forbid that
+		return 0, nil, true
+	}
+}
+
 // wideWith: wide but shallow - one With carrying n attributes, for every n on a grid that walks
 // the rendered size through every buffer growth step and size limit up to about 36 KiB; then a
 // sibling is derived and everybody logs. Compared with the same loggers built alone.
@@ -517,6 +644,17 @@ func main() {
 		viols = append(viols, v...)
 	}
 	cov["wide_With_cases"] = wideEvals
+	reEvals := 0
+	for kind := 0; kind < 3; kind++ {
+		n, v, hung := reentrant(kind)
+		reEvals += n
+		viols = append(viols, v...)
+		if hung {
+			fmt.Println("WARNING: the use-during-use pass did not come back for the " + handlerNames[kind] + " handler (rendering under a lock?): not judged")
+			cov["use_during_use_not_judged"] = handlerNames[kind]
+		}
+	}
+	cov["use_during_use_cases"] = reEvals
 	var searches []*vstate.Result
 	for kind := 0; kind < 3; kind++ {
 		kind := kind
